@@ -150,6 +150,8 @@ func WorkerMain(t *testing.T, worlds map[string]*World) {
 	// warm-up run (discarded): first-use initialisation inside the runtime and
 	// the libraries must not be part of a recorded execution
 	debug.SetGCPercent(-1)
+	// the collector stays off during a run unless the heap outgrows this soft limit (runs that move tens of MiB)
+	debug.SetMemoryLimit(3 << 30)
 	exec(NewTape(Mix(1, "warmup", 0)))
 	runtime.GC()
 	start := time.Now()
